@@ -14,7 +14,7 @@ def _imports():
     return Revision, RevisionMap, ScriptDirectory
 
 
-def build(g):
+def build(g, warm=False):
     """real RevisionMap + ScriptDirectory stub for a human graph; raises what alembic raises"""
     Revision, RevisionMap, ScriptDirectory = _imports()
 
@@ -31,6 +31,20 @@ def build(g):
     m._revision_map
     sd = ScriptDirectory.__new__(ScriptDirectory)
     sd.revision_map = m
+    if warm:
+        # the same RevisionMap object serves many requests in real use (env.py and the command share it):
+        # plan something else first so that state kept between requests is exercised
+        from alembic import util as _u
+        for t in ("heads", g[-1]["name"], g[0]["name"]):
+            for fn in (sd._upgrade_revs, sd._downgrade_revs):
+                try:
+                    fn(t, ())
+                except (_u.CommandError, AssertionError, KeyError):
+                    pass
+        try:
+            sd._downgrade_revs("base", tuple(m.heads))
+        except (_u.CommandError, AssertionError, KeyError):
+            pass
     return m, sd
 
 
@@ -100,6 +114,11 @@ def antichains(g):
 
 
 def rand_dag(rnd, n, pdep=0.3, pmerge=0.3, plabel=0.0, names=None):
+    if names is None and rnd.random() < 0.2:
+        # sequentially numbered histories, a common convention: ids that parse as integers (incl. value 0)
+        w = rnd.choice([1, 4])
+        names = [str(i).zfill(w) for i in range(n)]
+        rnd.shuffle(names)
     if names is None:
         names = []
         while len(names) < n:
